@@ -93,13 +93,16 @@ def fileLines (bytes : List Nat) : List Str := (splitLines bytes).map cleanLine
 
 /-! ## `utilities.py:is_comment` (after fix 7785a97: MCNP's column rule) -/
 
+/-- `ch.upper() == "C"` for a code point below 127 -/
+def isUpperC (c : Char) : Bool := c == 'c' || c == 'C'
+
 def isComment (line : Str) : Bool :=
   let indent := (line.takeWhile (· == ' ')).length
   if indent ≥ Gen.blankSpaceContinue then false
   else match line.drop indent with
     | [] => false
-    | [c] => c.toUpper == 'C'
-    | c :: d :: _ => c.toUpper == 'C' && pyIsSpace d
+    | [c] => isUpperC c
+    | c :: d :: _ => isUpperC c && pyIsSpace d
 
 /-! ## blocks, events, errors -/
 
@@ -246,29 +249,39 @@ def flushBlock (cfg : Cfg) (st : LState) : List Event × LState :=
   let bt := if cfg.firstBlock.value + counter < 3 then BlockType.ofValue (cfg.firstBlock.value + counter) else st.blockType
   (evs, { st with raw := [], blockCounter := counter, blockType := bt })
 
+/-- the "if a new input" condition of `read_data` -/
+def startsNew (st : LState) (line : Str) (lineIsComment : Bool) : Bool :=
+  !(strip (line.take Gen.blankSpaceContinue)).isEmpty && !st.continueInput && !lineIsComment
+    && st.hasNonComments && !st.raw.isEmpty
+
+/-- `line.rstrip().endswith(" &") and "$" not in line` (fixes 7bc85a8, 75939b5) -/
+def continues (cut : Str) : Bool := endsWith (rstrip cut) [' ', '&'] && !cut.contains '$'
+
+/-- the rest of one loop iteration for a non-blank line, after the "new input" flush produced `evs1`
+    and left `raw1` in `input_raw_lines` -/
+def stepData (cfg : Cfg) (st : LState) (line : Str) (lineIsComment : Bool) (evs1 : List Event)
+    (raw1 : List Str) : List Event × LState :=
+  if hasRaise evs1 then (evs1, st)
+  else if (line.take Gen.blankSpaceContinue).contains '#' && !lineIsComment then
+    (evs1 ++ [.raise .unsupported], st)
+  else
+    let cut := line.take cfg.lineLength
+    let evs2 := if cut.length != line.length then [Event.warn] else []
+    -- fix 0e3e134: a C comment line leaves `continue_input` alone
+    let cont := if lineIsComment then st.continueInput else continues cut
+    (evs1 ++ evs2,
+     { st with continueInput := cont, hasNonComments := st.hasNonComments || !lineIsComment,
+               raw := raw1 ++ [rstrip cut] })
+
 /-- one iteration of `for line in fh` in `read_data` -/
 def stepLine (cfg : Cfg) (st : LState) (line0 : Str) : List Event × LState :=
   let line := expandtabs Gen.tabSize line0
   let lineIsComment := isComment line
   if (strip line).isEmpty then
-    let (evs, st') := flushBlock cfg st
-    (evs, { st' with hasNonComments := false })
-  else
-    let startsNew := !(strip (line.take Gen.blankSpaceContinue)).isEmpty && !st.continueInput && !lineIsComment
-      && st.hasNonComments && !st.raw.isEmpty
-    let evs1 := if startsNew then flushInput cfg st.blockType st.raw else []
-    let raw1 := if startsNew then [] else st.raw
-    if hasRaise evs1 then (evs1, st)
-    else if (line.take Gen.blankSpaceContinue).contains '#' && !lineIsComment then
-      (evs1 ++ [.raise .unsupported], st)
-    else
-      let cut := line.take cfg.lineLength
-      let evs2 := if cut.length != line.length then [Event.warn] else []
-      let cont := if lineIsComment then st.continueInput
-                  else endsWith (rstrip cut) [' ', '&'] && !cut.contains '$'
-      (evs1 ++ evs2,
-       { st with continueInput := cont, hasNonComments := st.hasNonComments || !lineIsComment,
-                 raw := raw1 ++ [rstrip cut] })
+    ((flushBlock cfg st).1, { (flushBlock cfg st).2 with hasNonComments := false })
+  else if startsNew st line lineIsComment then
+    stepData cfg st line lineIsComment (flushInput cfg st.blockType st.raw) []
+  else stepData cfg st line lineIsComment [] st.raw
 
 /-- the loop of `read_data` followed by the final `flush_block` -/
 def goLines (cfg : Cfg) : LState → List Str → List Event
